@@ -188,6 +188,13 @@ class Program:
                 for el in value.elts:
                     self._add(self.etype, key,
                               self.type_of(fi, fi.module, el))
+        if isinstance(value, (ast.Name, ast.Attribute)) and isinstance(
+                tgt, (ast.Name, ast.Attribute)):
+            # plain alias of a container: element types travel along
+            et = self.elem_type_of(fi, fi.module, value)
+            if et:
+                for key in self._container_keys(fi, tgt):
+                    self._add(self.etype, key, et)
         if isinstance(tgt, ast.Subscript) and not isinstance(tgt.slice,
                                                               ast.Slice):
             ch = False
@@ -606,11 +613,15 @@ class Program:
                 meth = m.lookup_method(tag[2:], name)
                 if meth is not None:
                     out.append(Callee("repo", meth, how="basecall"))
-            elif tag in BUILTIN_METHODS or tag in ("int", "bool", "none",
-                                                   "float"):
+            elif tag in BUILTIN_METHODS and name in BUILTIN_METHODS[tag]:
                 known = True
                 out.append(Callee("builtin-method", name=tag + "." + name,
                                   how="typed"))
+            elif tag in BUILTIN_METHODS or tag in ("int", "bool", "none",
+                                                   "float"):
+                # this builtin type has no such method: the receiver must be
+                # of another type on the paths where the call happens
+                pass
             elif tag.startswith("XI:") or tag.startswith("X:"):
                 known = True
                 out.append(Callee("external", name=tag.split(":", 1)[1] + "."
